@@ -8,6 +8,7 @@ import (
 	"os"
 	"runtime"
 	"sync"
+	"sync/atomic"
 
 	"go.pennock.tech/tabular/texttable"
 	"go.pennock.tech/tabular/texttable/decoration"
@@ -24,6 +25,8 @@ import (
 type concShared struct {
 	solo [][]string // per scenario: raw outputs of its render ops, in order
 }
+
+var nexec atomic.Int64 // scenario executions (concurrent and solo), counted as they finish
 
 func runConcMode(in *os.File, out *bufio.Writer, facets map[string]bool) {
 	sc := bufio.NewScanner(in)
@@ -108,6 +111,7 @@ func runConcMode(in *os.File, out *bufio.Writer, facets map[string]bool) {
 					<-start
 					runScenarioIn(w, bw, fmt.Sprintf("c%d_%s", r, ids[i]), ops, facets, false, nil)
 					bw.Flush()
+					nexec.Add(1)
 					concMu.Lock()
 					conc[fmt.Sprintf("%d/%d", r, i)] = w.rawOutputs
 					concMu.Unlock()
@@ -130,6 +134,7 @@ func runConcMode(in *os.File, out *bufio.Writer, facets map[string]bool) {
 		w := newWorld()
 		w.recordRaw = true
 		runScenarioIn(w, out, "solo_"+ids[i], reparse(i), facets, false, nil)
+		nexec.Add(1)
 		solo[i] = w.rawOutputs
 		nops += len(scens[i])
 	}
@@ -153,5 +158,5 @@ func runConcMode(in *os.File, out *bufio.Writer, facets map[string]bool) {
 	writeLine(out, M{"op": M{"op": "reset", "id": "solocmp", "reg": registrySnapshot(), "defdec": decorOfWrapper(texttable.New())}})
 	writeLine(out, M{"op": M{"op": "solocmp"}, "obs": M{"res": M{"compared": compared, "unequal": unequal}}})
 	out.Flush()
-	fmt.Fprintf(os.Stderr, "vdrive: {\"scenarios\": %d, \"ops\": %d, \"renders\": %d}\n", len(scens)*(rounds+1), nops, compared)
+	fmt.Fprintf(os.Stderr, "vdrive: {\"scenarios\": %d, \"ops\": %d, \"renders\": %d}\n", nexec.Load(), nops, compared)
 }
